@@ -529,3 +529,68 @@ Proof.
            subst k. destruct (Cb d D1 D2) as [e [E1 [E2 E3]]]. exists e. split; [assumption|]. unfold nd; cbn [d_tag d_ref d_data]. split; [congruence|]. rewrite Hdec. rewrite E3. exact D4.
         -- apply (Cb d0 Hd0 Htg).
 Qed.
+
+(* ================= 6. DFANaddfid / DFANaddfds ================================================================== *)
+Lemma ftype_facts : forall kind, kind_ok kind ->
+  let t := dfan_kind_ftype kind in let tag := (if kind =? DFAN_LABEL then DFTAG_FID else DFTAG_FD) in
+  tyok t /\ tag = tag_of_type t /\ is_data_type t = false /\ is_data_tag tag = false /\ ty_of tag = t /\
+  (forall k, kind_ok k -> dfan_tag k <> tag).
+Proof.
+  intros kind [-> | ->]; cbv zeta; unfold tyok; repeat split; try reflexivity; try (cbv; intros X; discriminate X);
+  intros k [-> | ->]; vm_compute; discriminate.
+Qed.
+
+Lemma sim_dfaddf : forall h a kind txt x0 h' mr a' sr, SimD h a -> kind_ok kind ->
+  mstep h (ODfAddF kind txt x0) = (h', mr) -> step a (ODfAddF kind txt (ref1 mr)) = (a', sr) ->
+  sr = RUnspec \/ exhausted sr mr \/ (SimD h' a' /\ accepts_full sr mr).
+Proof.
+  intros h a kind txt x0 h' mr a' sr [HS HD] Hk HM HSp. unfold mstep in HM. cbv beta iota zeta in HM. simpl in HSp.
+  rewrite (sim_sess _ _ HS) in HSp. destruct (h_sess h) eqn:Es; [inversion HSp; left; reflexivity|]. specialize (HD eq_refl).
+  pose proof (sim_good _ _ HS) as HG. pose proof HG as [HI HT]. destruct (sim_closed _ _ HS Es) as [C1 C2].
+  destruct (ftype_facts kind Hk) as [K1 [K2 [K3 [K4 [K5 K6]]]]]. set (t := dfan_kind_ftype kind) in *.
+  set (tag := if kind =? DFAN_LABEL then DFTAG_FID else DFTAG_FD) in *.
+  destruct ((zlen txt =? 0) || ((kind =? DFAN_LABEL) && has_nul txt)) eqn:Et; [inversion HSp; left; reflexivity|].
+  apply orb_false_iff in Et. destruct Et as [Et _].
+  assert (Hrepr : forall x, In x (anns a) <-> In x (map ann_of (l_dds (h_lib h)))).
+  { intros x. rewrite (sim_repr _ _ HS). apply closed_repr_iff; assumption. }
+  unfold DFANIaddfann in HM. fold tag in HM. remember (htagnewref tag (l_dds (h_lib h))) as annref eqn:Ea.
+  destruct (annref =? 0) eqn:Ea0.
+  { apply Z.eqb_eq in Ea0. inversion HM; subst h' mr. simpl in HSp. unfold fresh in HSp. simpl in HSp. inversion HSp; subst.
+    right. left. split; reflexivity. }
+  apply Z.eqb_neq in Ea0. destruct (htagnewref_range _ _ _ (eq_sym Ea) Ea0) as [Hrange Hnotin].
+  rewrite Et in HM. inversion HM; subst h' mr; clear HM. cbn [ref1 l_lastref set_lastref] in HSp.
+  assert (Hhf : hfind tag annref (l_dds (h_lib h)) = None) by (apply not_in_refs_hfind; assumption).
+  set (nd := mkdd tag annref txt) in *.
+  assert (Hfr : fresh t annref (anns a) = true).
+  { unfold fresh. destruct Hrange as [R1 R2]. rewrite (proj2 (Z.leb_le _ _) R1), (proj2 (Z.leb_le _ _) R2). simpl.
+    destruct (lookup (t, annref) (anns a)) as [x|] eqn:L; [|reflexivity]. exfalso. apply lookup_In in L. destruct L as [L1 L2].
+    apply Hrepr in L1. apply in_map_iff in L1. destruct L1 as [d [E Hd]]. subst x. unfold ann_of in L2. simpl in L2. inversion L2.
+    destruct (tf_tags _ HT d Hd) as [ty [Ty Gy]]. rewrite Gy, ty_of_tag_of_type in H0 by assumption. subst ty.
+    apply Hnotin. rewrite <- H1. apply in_map. unfold of_tag. apply filter_In. split; [assumption|]. apply Z.eqb_eq. rewrite Gy. symmetry. exact K2. }
+  rewrite Hfr in HSp. inversion HSp; subst a' sr; clear HSp.
+  assert (Hput : hput tag annref txt (l_dds (h_lib h)) = l_dds (h_lib h) ++ [nd]) by (apply hput_absent; assumption).
+  assert (Hann : ann_of nd = mkann (t, annref) (tag_of_type t) annref (Some txt)).
+  { unfold ann_of, nd, target_of, payload_text. cbn [d_tag d_ref d_data]. rewrite K5, K3, K4. cbn [fst snd]. rewrite <- K2. reflexivity. }
+  set (s2 := set_lastref (set_dds (h_lib h) (hput tag annref txt (l_dds (h_lib h)))) annref).
+  assert (Htr2 : forall ty, l_tree s2 ty = None) by (intros ty; apply C1).
+  assert (HI2 : Inv s2).
+  { apply (Inv_same_tables (h_lib h)); [assumption | repeat split|]. unfold s2; cbn [l_dds set_lastref set_dds]. rewrite Hput.
+    intros d Hd. apply in_app_or in Hd. destruct Hd as [Hd|[<-|[]]]; [apply (inv_refs _ HI); assumption | exact Hrange]. }
+  assert (HT2 : TF s2).
+  { apply (TF_hput_closed (h_lib h) _ tag annref txt); auto. exists t. auto. intros X. rewrite K4 in X. discriminate. }
+  right. right. split; [|left; unfold accepts; split; [left; reflexivity | constructor]].
+  split.
+  - unfold add_ann. constructor; cbn [h_lib hlib h_sess h_slots anns slots sess].
+    + split; assumption.
+    + unfold keys. rewrite map_app. cbn [map a_key]. apply NoDup_app_one; [apply (sim_nodup _ _ HS)|]. apply lookup_None.
+      unfold fresh in Hfr. destruct (lookup (t, annref) (anns a)); [rewrite andb_false_r in Hfr; discriminate | reflexivity].
+    + intros x. rewrite in_app_iff. rewrite (closed_repr_iff s2 x (conj HI2 HT2) Htr2). unfold s2; cbn [l_dds set_lastref set_dds]. rewrite Hput, map_app, in_app_iff.
+      cbn [map In]. rewrite Hann, Hrepr. split; [intros [X|[X|[]]]; auto | intros [X|[X|[]]]; auto].
+    + first [apply (sim_sess _ _ HS) | symmetry; exact Es].
+    + intros _. split; [exact Htr2 | exact C2].
+    + intros slot. apply (sim_slots _ _ HS slot).
+  - intros _ k b Hkk Hb. unfold s2 in *. cbn [h_lib hlib l_dir l_dds set_lastref set_dds] in *. rewrite Hput.
+    apply (DirCoh_other k b (l_dds (h_lib h))); [apply (HD k b Hkk Hb)|].
+    intros d Htg. rewrite in_app_iff. split; [intros [X|[<-|[]]]; [assumption|]|auto].
+    exfalso. apply (K6 k Hkk). symmetry. exact Htg.
+Qed.
